@@ -41,10 +41,10 @@ pub trait Runtime: Send + Sync {
     fn current(&self) -> usize;
     /// Announces `op` and returns once the runtime has chosen this thread to perform it
     fn point(&self, op: Op, loc: &'static Location<'static>);
-    /// Asked before a nested lock/after a nested unlock whether this should be a scheduling point (`held` = classes of the mutexes still held)
-    fn nested_point(&self, held: &[&'static str]) -> bool;
-    /// Is a depth-0 acquisition of a mutex of this class a scheduling point?
-    fn lock_is_point(&self, class: &'static str) -> bool;
+    /// Asked before a nested lock (`acquiring`) / after a nested unlock (`released`) whether this should be a scheduling point (`held` = ids of the mutexes held)
+    fn nested_point(&self, held: &[usize], acquiring: Option<usize>, released: Option<usize>) -> bool;
+    /// Is a depth-0 acquisition of this mutex a scheduling point?
+    fn lock_is_point(&self, id: usize) -> bool;
 
     fn mutex_created(&self, id: usize, class: &'static str, loc: &'static Location<'static>);
     fn mutex_acquired(&self, id: usize, class: &'static str, loc: &'static Location<'static>, try_lock: bool);
@@ -78,7 +78,7 @@ pub mod sync {
 
     thread_local! { static HELD: RefCell<Vec<(usize, &'static str)>> = RefCell::new(vec![]); }
 
-    fn held_classes() -> Vec<&'static str> { HELD.with(|h| h.borrow().iter().map(|(_, c)| *c).collect()) }
+    fn held_ids() -> Vec<usize> { HELD.with(|h| h.borrow().iter().map(|(id, _)| *id).collect()) }
     fn depth() -> usize { HELD.with(|h| h.borrow().len()) }
 
     pub struct Mutex<T> { id: usize, class: &'static str, inner: std::sync::Mutex<T> }
@@ -116,8 +116,8 @@ pub mod sync {
 
             if let Some(rt) = rt() {
                 if depth() == 0 {
-                    if rt.lock_is_point(self.class) { rt.point(Op::Lock(self.id), loc); }
-                } else if rt.nested_point(&held_classes()) {
+                    if rt.lock_is_point(self.id) { rt.point(Op::Lock(self.id), loc); }
+                } else if rt.nested_point(&held_ids(), Some(self.id), None) {
                     rt.point(Op::Lock(self.id), loc);
                 }
 
@@ -173,7 +173,7 @@ pub mod sync {
         fn drop(&mut self) {
             if self.release() {
                 if let Some(rt) = rt() {
-                    if depth() > 0 && !std::thread::panicking() && rt.nested_point(&held_classes()) {
+                    if depth() > 0 && !std::thread::panicking() && rt.nested_point(&held_ids(), None, Some(self.mutex.id)) {
                         rt.point(Op::Yield("unlock"), Location::caller());
                     }
                 }
